@@ -241,9 +241,7 @@ impl Mon {
             let sv_changed = qp.asv != qq.asv || qp.lsv != qq.lsv;
             let mut eps = (&qq.asv + &qq.lsv + ri(2)) * ri(64) * ulp();
             if sv_changed {
-                let ta = rmax(&qp.tas, &qq.tas);
-                let tl = rmax(&qp.tls, &qq.tls);
-                eps += (&ta * (one() + &qq.asv) + &tl * (one() + &qq.lsv)) * ri(4) * ulp() + ri(1024 * (dt as i128 + 2)) * ulp();
+                eps += accrual_allowance(&qp, &qq, dt);
             }
             let shortfall = &d_req - &d_v;
             self.r.eval();
@@ -311,10 +309,11 @@ impl Mon {
                     // only sub-dust sides can be abandoned (value < 0.0001 unit; one whole share at
                     // whole-account closure, the program's "empty" threshold)
                     let lim = if info.kind == Kind::CloseAccount { rmax(&one(), &rq(1, 10000)) } else { rq(1, 10000) };
-                    if bits_to_rat(pa) * w_or1(&pre.asset_share_value) < lim {
+                    // value is what the statement bounds (a wiped-out bank's shares are worth nothing)
+                    if bits_to_rat(pa) * w_(&post.asset_share_value) < lim {
                         allow_a += pa.max(0);
                     }
-                    if bits_to_rat(pl) * w_or1(&pre.liability_share_value) < lim {
+                    if bits_to_rat(pl) * w_(&post.liability_share_value) < lim {
                         allow_l += pl.max(0);
                     }
                 }
@@ -581,7 +580,7 @@ impl Mon {
                 let d_l = &qp.tls * (&qq.lsv - &qp.lsv);
                 let d_d = &qp.tas * (&qq.asv - &qp.asv);
                 let resid = abs(&(&d_l - &d_d - &fee_total));
-                let allow = (&qp.tas * (one() + &qp.asv) + &qp.tls * (one() + &qp.lsv)) * ri(4) * ulp() + ri(1024 * (dt.max(0) as i128 + 2)) * ulp();
+                let allow = accrual_allowance(&qp, &qq, dt.max(0));
                 if informative {
                     self.r.max("C06.max_conservation_residual_over_allowance", to_f64(&(&resid / &allow)));
                 }
@@ -773,6 +772,17 @@ impl Mon {
         }
         self.r.sample_kind(info.kind.name(), json!({"bank": bk.to_string(), "deposits": show(&qq.d), "debt": show(&qq.l), "deposit_limit": post.config.deposit_limit.to_string(), "borrow_limit": post.config.borrow_limit.to_string()}));
     }
+}
+
+/// Allowance for the value identities across an accrual: every rate (base, lending, borrowing, fee)
+/// and the utilisation are truncated to the 2^-48 grid, so value deltas carry
+/// (deposits + debt) * years * few ulps, plus one truncation per share-value update (totals * ulp)
+/// and per fee bucket (seconds * ulp).
+pub fn accrual_allowance(qp: &BankQ, qq: &BankQ, dt: i64) -> Rat {
+    let years = ri(dt as i128) / ri(31_536_000);
+    let mag = rmax(&qp.d, &qq.d) + rmax(&qp.l, &qq.l);
+    let shares = rmax(&qp.tas, &qq.tas) + rmax(&qp.tls, &qq.tls);
+    (mag * (one() + years) * ri(32) + shares * ri(8) + ri(1024 * (dt as i128 + 2))) * ulp()
 }
 
 fn w_(x: &WrappedI80F48) -> Rat {
